@@ -629,6 +629,11 @@ def rule_exhaustive(repo):
                 [x.arg for x in a.kwonlyargs] == ['trunc_int'] and [norm(d) for d in a.kw_defaults] == ['False']
             calls = [n for n in ast.walk(f) if isinstance(n, ast.Call) and norm(n.func) == 'super().__init__']
             ok = ok and len(calls) == 1 and [norm(x) for x in calls[0].args] == ['8', 'v', 'trunc_int'] and not calls[0].keywords
+            # every path goes through Bits.__init__ (its width / range checks): the body is nothing but the forwarding call
+            body = [x for x in f.body if not (isinstance(x, ast.Expr) and isinstance(x.value, ast.Constant))]
+            ok = ok and len(body) == 1 and isinstance(body[0], (ast.Return, ast.Expr)) and calls and body[0].value is calls[0]
+            # and the generated class writes no stored value itself
+            ok = ok and not any(isinstance(x, ast.Attribute) and x.attr in ('_uint', '_next') and isinstance(x.ctx, ast.Store) for x in ast.walk(tree))
         reg = [s for s in tree.body if isinstance(s, ast.Assign) and '_bits_types[8]' in norm(s)]
         ok = ok and reg and norm(reg[0].value) == 'Bits8'
         if ok:
@@ -680,7 +685,57 @@ def rule_exhaustive(repo):
     return r
 
 
-RULES = [rule_range, rule_guard, rule_optable, rule_tables, rule_exhaustive]
+def rule_shiftbound(repo):
+    """A left shift by an operand-supplied amount is performed only for amounts below the width: larger amounts must take the
+    shift-out short cut (result 0) -- otherwise `x << Bits64(2**62)` builds a 2**62-bit integer (MemoryError) before the mask."""
+    r = RuleResult('R-C04-shiftbound', "x << amount is computed only for amount < nbits; larger amounts return 0 without shifting")
+    m, cls, meths = _bits(repo)
+    f = meths.get('__lshift__')
+    if f is None:
+        raise AnalysisError("anchor vanished: Bits.__lshift__")
+    other = f.args.args[1].arg
+    me = self_name(f)
+    shifts = [n for n in walk_no_nested(f) if isinstance(n, ast.BinOp) and isinstance(n.op, ast.LShift) and norm(n.left) == f'{me}._uint']
+    if len(shifts) < 2:
+        raise AnalysisError("Bits.__lshift__: expected a shift on the Bits-operand and on the int-operand path")
+    for sh in shifts:
+        amt = sh.right
+        cons = f"{norm(sh)} in {'Bits' if enclosing(sh, (ast.ExceptHandler,)) is None else 'int'}-operand path"
+        gs = [g for g in guards_of(sh) if g.kind == 'exit' and norm(amt) in {norm(x) for x in ast.walk(g.test)}
+              and not any(isinstance(x, ast.Raise) for b in g.exit_block for x in ast.walk(b))]
+        bounded = False
+        for g in gs:
+            # guard false (we got past it) must imply amount < nbits
+            ok = True
+            for nb in range(1, 7):
+                for a in range(0, 12):
+                    def leaf(x, nb=nb, a=a):
+                        if norm(x) == norm(amt):
+                            return a
+                        if width_term(x, sh, f) == 'N':
+                            return nb
+                        return NotImplemented
+                    r.evaluations += 1
+                    # g.polarity is the truth value of the test on the fall-through path; the shift amount must stay bounded
+                    # by the width there (amount == nbits is harmless: the mask clears everything)
+                    passed = bool(Evaluator({}, arith=True, leaf=leaf).ev(g.test)) == g.polarity
+                    if passed and a > nb:
+                        ok = False
+            if ok:
+                # the exit must return the zero value of the right width
+                rets = [x for b in g.exit_block for x in ast.walk(b) if isinstance(x, ast.Return)]
+                if rets and all(isinstance(x.value, ast.Call) and norm(x.value.func) == '_new_valid_bits' and norm(x.value.args[1]) == '0' for x in rets):
+                    bounded = True
+        if bounded:
+            r.ok(m, 'Bits.__lshift__', cons)
+        else:
+            r.bad(m, 'Bits.__lshift__', cons, "the shift is computed for arbitrarily large amounts: an amount >= nbits must return 0 before "
+                  "shifting (a Bits64 amount of 2**62 otherwise allocates a 2**62-bit integer / raises MemoryError instead of returning 0)", sh.lineno)
+    r.require_floor(2)
+    return r
+
+
+RULES = [rule_range, rule_guard, rule_optable, rule_tables, rule_exhaustive, rule_shiftbound]
 
 
 # ---------------------------------------------------------------------------
@@ -690,6 +745,8 @@ def _m(name, old, new, rule=None, file=BITS, count=1):
 
 
 MUTANTS = [
+    _m('lshift-shortcut-removed', "      uint = other._uint\n      if uint >= nbits:\n        return _new_valid_bits( self._nbits, 0 )\n", "      uint = other._uint\n", 'R-C04-shiftbound'),
+    _m('template-fast-path', "  def __init__( s, v=0, *, trunc_int=False ):\n    return super().__init__( {0}, v, trunc_int )", "  def __init__( s, v=0, *, trunc_int=False ):\n    if isinstance( v, Bits ):\n      s._nbits = {0}\n      s._uint = v._uint\n      return\n    return super().__init__( {0}, v, trunc_int )", 'R-C04-exhaustive', file=IMPORT, count=2),
     _m('add-bits-unmasked', "(self._uint + other._uint) & _upper[nbits] )", "(self._uint + other._uint) )", 'R-C04-range'),
     _m('sub-int-unmasked', "(self._uint - other) & up )", "(self._uint - other) )", 'R-C04-range'),
     _m('invert-unmasked', "~self._uint & _upper[nbits] )", "~self._uint )", 'R-C04-range'),
